@@ -321,10 +321,37 @@ func readBlob(layout string, d ociDesc, what string, w e2eWorld) ([]byte, string
 }
 
 type e2eImage struct {
-	Arch   string `json:"oci_architecture"`
-	Digest string `json:"recomputed_image_digest"`
-	In     genIn  `json:"input_from_artifacts"`
-	Obs    obsT   `json:"observed_sbom"`
+	Arch       string `json:"oci_architecture"`
+	ArchString string `json:"architecture_string"` // types.Architecture.String(): amd64, arm64, arm/v7, ...
+	APKArch    string `json:"apk_architecture"`
+	Digest     string `json:"recomputed_image_digest"`
+	In         genIn  `json:"input_from_artifacts"`
+	Obs        obsT   `json:"observed_sbom"`
+}
+
+// what one architecture's build produced, as Model/SbomProv.v's record
+func galBuilt(g genIn) string {
+	ls := make([]string, len(g.Layers))
+	for i, l := range g.Layers {
+		ls[i] = galHash(l)
+	}
+	as := make([]string, len(g.Apks))
+	for i, a := range g.Apks {
+		as[i] = fmt.Sprintf("(mki %s %s %s %s)", gal.Str(a.Name), gal.Str(a.Version), gal.Bytes(a.Sum), gal.Str(a.Arch))
+	}
+	fs := make([]string, len(g.FS))
+	for i, e := range g.FS {
+		v := "FBad"
+		switch e.Kind {
+		case kDoc:
+			v = "(FDoc " + galDoc(e.Doc) + ")"
+		case kDir:
+			v = "FDir"
+		}
+		fs[i] = gal.Pair(gal.Str(e.Key), v)
+	}
+	return fmt.Sprintf("{| b_layers := %s; b_digest := %s; b_installed := %s; b_version_id := %s; b_vcs := %s; b_fs := %s |}",
+		gal.List(ls), galHash(hashT{"sha256", strings.TrimPrefix(g.Image, "sha256:")}), gal.List(as), gal.Str(g.OSVer), gal.Str(g.VCS), gal.List(fs))
 }
 
 func readSBOM(p string) obsT {
@@ -371,7 +398,8 @@ func e2eStage(out string, seed uint64, tier string) error {
 	if err != nil {
 		return err
 	}
-	builds, images := 0, 0
+	builds, images, noarch, foreign := 0, 0, 0, 0
+	shapes := shapeCount{}
 	for k, wd := range e2eWorlds(tier) {
 		dir := filepath.Join(tmpDir, fmt.Sprintf("w%d", k))
 		layout, sboms := filepath.Join(dir, "layout"), filepath.Join(dir, "sboms")
@@ -473,7 +501,11 @@ func e2eStage(out string, seed uint64, tier string) error {
 				g.FS = append(g.FS, e)
 			}
 			apkArch := ociToAPK(md.Platform.Architecture, md.Platform.Variant)
-			imgs = append(imgs, e2eImage{Arch: md.Platform.Architecture + md.Platform.Variant, Digest: g.Image, In: g,
+			archStr := md.Platform.Architecture
+			if md.Platform.Variant != "" {
+				archStr += "/" + md.Platform.Variant
+			}
+			imgs = append(imgs, e2eImage{Arch: md.Platform.Architecture, ArchString: archStr, APKArch: apkArch, Digest: g.Image, In: g,
 				Obs: readSBOM(filepath.Join(sboms, "sbom-"+apkArch+".spdx.json"))})
 		}
 		if bad {
@@ -482,26 +514,33 @@ func e2eStage(out string, seed uint64, tier string) error {
 		}
 		for _, im := range imgs {
 			images++
+			shapes.add(im.In)
 			class := fmt.Sprintf("image/layers=%d/embedded=%v", len(im.In.Layers), len(im.In.FS) > 0)
-			w.Add(gal.Case{Term: fmt.Sprintf("(EImg {| gc_in := %s; gc_obs := %s |})", galGenIn(im.In), galObs(im.Obs)),
+			for _, a := range im.In.Apks {
+				if a.Arch == "noarch" {
+					noarch++
+				} else if a.Arch != im.APKArch {
+					foreign++
+				}
+			}
+			w.Add(gal.Case{Term: fmt.Sprintf("(EImg %s %s)", galBuilt(im.In), galObs(im.Obs)),
 				Class: class, Desc: map[string]any{"world": wd, "image": im}})
 		}
-		// GenerateIndexSBOM visits the images in the order of their architecture strings
-		sort.Slice(imgs, func(i, j int) bool { return imgs[i].Arch < imgs[j].Arch })
-		x := idxIn{Index: hashT{"sha256", idxHex}, VCS: wd.VCS}
-		ls := make([]string, len(imgs))
+		// the images map of GenerateIndexSBOM, in the order of the index manifest; the model sorts it
+		bi := make([]string, len(imgs))
+		var bij []map[string]string
 		for i, im := range imgs {
-			h := hashT{"sha256", strings.TrimPrefix(im.Digest, "sha256:")}
-			x.Images = append(x.Images, h)
-			ls[i] = galHash(h)
+			bi[i] = gal.Pair(gal.Str(im.ArchString), galHash(hashT{"sha256", strings.TrimPrefix(im.Digest, "sha256:")}))
+			bij = append(bij, map[string]string{"arch": im.ArchString, "digest": im.Digest})
 		}
 		o := readSBOM(filepath.Join(sboms, "sbom-index.spdx.json"))
-		w.Add(gal.Case{Term: fmt.Sprintf("(EIdx {| xc_in := {| x_index := %s; x_images := %s; x_vcs := %s |}; xc_obs := %s |})", galHash(x.Index), gal.List(ls), gal.Str(x.VCS), galObs(o)),
-			Class: fmt.Sprintf("index/images=%d", len(imgs)), Desc: map[string]any{"world": wd, "index_from_artifacts": x, "observed_sbom": o}})
+		w.Add(gal.Case{Term: fmt.Sprintf("(EIdx {| bi_digest := %s; bi_images := %s; bi_vcs := %s |} %s)", galHash(hashT{"sha256", idxHex}), gal.List(bi), gal.Str(wd.VCS), galObs(o)),
+			Class: fmt.Sprintf("index/images=%d", len(imgs)), Desc: map[string]any{"world": wd, "index_digest": "sha256:" + idxHex, "images_in_manifest_order": bij, "observed_sbom": o}})
 		os.RemoveAll(dir)
 	}
-	b, _ := json.Marshal(map[string]any{"e2e_builds": builds, "e2e_images": images})
+	b, _ := json.Marshal(map[string]any{"e2e_builds": builds, "e2e_images": images, "e2e_installed_noarch": noarch, "e2e_installed_foreign_arch": foreign})
 	fmt.Printf("STAT %s\n", b)
+	shapes.stat("embedded_sbom_shapes")
 	if builds == 0 {
 		return fmt.Errorf("e2e: no build succeeded")
 	}
